@@ -16,7 +16,11 @@
 from warnings import warn
 import unified_planning as up
 from unified_planning.model.expression import ConstantExpression
-from unified_planning.exceptions import UPProblemDefinitionError, UPValueError
+from unified_planning.exceptions import (
+    UPProblemDefinitionError,
+    UPTypeError,
+    UPValueError,
+)
 from typing import Optional, List, Dict, Union, Iterable, Set
 
 
@@ -46,6 +50,7 @@ class FluentsSetMixin:
         self._initial_defaults: Dict["up.model.types.Type", "up.model.fnode.FNode"] = {}
         for k, v in initial_defaults.items():
             (v_exp,) = self.environment.expression_manager.auto_promote(v)
+            self._check_default_initial_value(k, v_exp)
             self._initial_defaults[k] = v_exp
         # The field initial default optionally associates a type to a default value. When a new fluent is
         # created with no explicit default, it will be associated with the initial-default of his type, if any.
@@ -59,6 +64,22 @@ class FluentsSetMixin:
     def fluents(self) -> List["up.model.fluent.Fluent"]:
         """Returns the `fluents` currently in the `problem`."""
         return self._fluents
+
+    def _check_default_initial_value(
+        self, typename: "up.model.types.Type", value: "up.model.fnode.FNode"
+    ):
+        """
+        Checks that the given `value` can be the initial value of a `fluent` of the given
+        `type`, with the same rules `set_initial_value` applies to an explicit initial value.
+        """
+        if not value.is_constant():
+            raise UPTypeError(
+                f"A default initial value must be a constant: {value} is not."
+            )
+        if not typename.is_compatible(value.type):
+            raise UPTypeError(
+                f"Default initial value {value} has not a type compatible with {typename}!"
+            )
 
     def fluent(self, name: str) -> "up.model.fluent.Fluent":
         """
@@ -144,11 +165,15 @@ class FluentsSetMixin:
                 raise UPProblemDefinitionError(msg)
             else:
                 warn(msg)
-        self._fluents.append(fluent)
+        v_exp: Optional["up.model.fnode.FNode"] = None
         if not default_initial_value is None:
             (v_exp,) = self.environment.expression_manager.auto_promote(
                 default_initial_value
             )
+            # checked before the fluent is added, so a rejected call changes nothing
+            self._check_default_initial_value(fluent.type, v_exp)
+        self._fluents.append(fluent)
+        if v_exp is not None:
             self._fluents_defaults[fluent] = v_exp
         elif fluent.type in self._initial_defaults:
             self._fluents_defaults[fluent] = self._initial_defaults[fluent.type]
